@@ -136,6 +136,16 @@ Fixpoint profiles_while (fuel : nat) (st : pst) : pst :=
     end
   else st.
 
+(* the version inside "( op version )": one IDENT, or IDENT COLON IDENT when it carries an epoch.
+   (Fix C10-epoch-and-space-in-version.  Before the fix this was [expect IDENT st]: a version with
+   an epoch, "a (>= 1:2.0)", was rejected with three errors; and no whitespace was skipped
+   between the version and ")", so "a (>= 1 )" was rejected too.) *)
+Definition version_text (st : pst) : pst :=
+  if cur_is st IDENT then
+    let st := bump st in
+    if cur_is st COLON then expect IDENT (bump st) else st
+  else error st.
+
 Definition parse_relation (st : pst) : pst :=
   in_node RELATION (fun st =>
     let st := expect IDENT st in
@@ -160,7 +170,8 @@ Definition parse_relation (st : pst) : pst :=
           let st := skip_ws st in
           let st := constraint_node st in
           let st := skip_ws st in
-          let st := expect IDENT st in
+          let st := version_text st in
+          let st := skip_ws st in
           expect R_PARENS st) st
       else st in
     let st :=
